@@ -42,7 +42,9 @@ void vf_budget_abort(int which) {
 }
 static void arm(const char *what, size_t inlen) {
     snprintf(BUDGET_WHAT, sizeof BUDGET_WHAT, "%s", what);
-    vf_cpu_arm(BUDGET_WHAT, 2000);
+    /* 2 s of CPU, plus a quadratic allowance for very long inputs: the query parser shifts the rest of the string once per pair (25 s for a 1 MB string of
+     * short pairs at -O0) - slow, but it terminates; 200 ps x n^2 stays a factor 8 above that and is nothing for inputs below 100 KB */
+    { size_t k = strcmp(what, "qparse_queries") ? 0 : inlen / 1000; vf_cpu_arm(BUDGET_WHAT, 2000 + (int)(k * k / 5 > 600000 ? 600000 : k * k / 5)); }   /* the query parser only: the INI budgets were calibrated on their own */
     vf_alloc_budget = vf_alloc_calls + (strncmp(what, "qconfig", 7) ? 20000 : 4000 + (long)inlen / 4);
     /* far above anything a terminating call can need: the INI parser sizes every replacement buffer for the worst case, (|value| / |token|) * |replacement|, i.e. quadratic in the input
      * (an 18 KB value referenced through a 6-byte ${k} asked for 108 MB in one malloc - wasteful, but it terminates; soak seed 3) */
@@ -271,6 +273,7 @@ static void mutation_case(long caseno) {
         unsigned char *s = hm_alloc(n + 64); for (size_t i = 0; i < n; i++) s[i] = rng_chance(&R, 1, 6) ? (unsigned char)(1 + rng_below(&R, 255)) : AL[fn][rng_below(&R, (uint32_t)AK[fn])];
         mb_set(s, n); hm_free(s); if (rng_chance(&R, 1, 2)) mutate(fn);
         size_t m = MBN; for (size_t i = 0; i < m; i++) if (!MB[i]) { m = i; break; }
+        if (fn == 3 && m > 150000) { m = 150000; MB[m] = 0; }   /* the query parser is quadratic in the number of pairs: 1 MB costs minutes under ASan and adds nothing */
         vf_case_begin(caseno, "random %s input (%zu bytes)", FNAME[fn], m);
         vf_log("input: %s", vf_hex(MB, m > 200 ? 200 : m));
         evaluate(fn, MB, m, NULL);
